@@ -1,5 +1,5 @@
 """C05 - mutate saves exactly the edited simfile, in the encoding it was read in (structural clauses)."""
-from ..rules import fwd, mutate, state
+from ..rules import fwd, mutate, state, baseline
 
 EXPLANATION = (
     "Static rule checking of the encoding chain and of mutate's effects: def-use/R-FWD the returned encoding is the loop "
@@ -41,10 +41,14 @@ def c5(ctx):
 def c8(ctx):
     state.shared_state(ctx, ["simfile:open", "simfile:open_with_detected_encoding", "simfile:mutate"], "the encodings tried depend on the call's arguments only")
 
+def c_api(ctx):
+    baseline.surface(ctx, "C05: documented surface", functions=['simfile:open', 'simfile:open_with_detected_encoding', 'simfile:mutate'], keys=['simfile.ENCODINGS', 'simfile.CancelMutation'], modules=['simfile._private.nativeosfs'])
+
 CLAUSES = [
     ("C05.1-2", "encoding chain, error discipline, options forwarded", c1),
     ("C05.3", "name check before every filesystem effect", c3),
     ("C05.4", "order and targets of the writes", c4),
     ("C05.5", "no other file is touched (R-EFFECT census)", c5),
     ("C05.8", "no process-wide state behind encoding detection (R-STATE)", c8),
+    ("C05.api", "public surface: signatures and defaults, constants, enumerations, blank templates, base classes as confirmed (R-API)", c_api),
 ]
